@@ -8,7 +8,8 @@
    Refutations: one witness per recorded finding class outside that fragment. *)
 From Coq Require Import ZArith List Bool.
 From TV Require Import Model.SqlSpec Model.UndoLog Model.UndoLogSpec
-  Proof.UndoLogBase Proof.UndoLogStep Proof.UndoLogSp Proof.UndoLogTxn Proof.UndoLogLifo Proof.UndoLogRefute.
+  Proof.UndoLogBase Proof.UndoLogStep Proof.UndoLogSp Proof.UndoLogTxn Proof.UndoLogLifo Proof.UndoLogSec
+  Proof.UndoLogRefute.
 Import ListNotations.
 Open Scope Z_scope.
 
@@ -50,6 +51,24 @@ Theorem savepoint_restores :
     obs_eq sch (fst s') st /\
     snd s' = Some (mkTxn (wlog t) (sps t ++ [(n, length (wlog t))])).
 Proof. exact savepoint_restores_obs_l. Qed.
+
+(* lookups through the secondary (non-unique) index are restored as well on tables without an
+   integer primary key (with one: finding class 3) *)
+Theorem rollback_restores_secondary :
+  forall sch st body fin,
+    int_pk sch = false -> inv sch st -> no_bare st ->
+    clean_run sch [] body (st, Some (mkTxn [] [])) = true ->
+    fin = ORollback \/ fin = ODrop ->
+    forall v, lookup1 sch (fst (run sch (OBegin :: body ++ [fin]) (st, None))) v = lookup1 sch st v.
+Proof. exact rollback_restores_secondary_l. Qed.
+
+Theorem savepoint_restores_secondary :
+  forall sch st t n body,
+    int_pk sch = false -> inv sch st -> no_bare st -> zin n (names_of (sps t)) = false ->
+    clean_run sch (names_of (sps t) ++ [n]) body
+              (st, Some (mkTxn (wlog t) (sps t ++ [(n, length (wlog t))]))) = true ->
+    forall v, lookup1 sch (fst (run sch (OSave n :: body ++ [ORollTo n]) (st, Some t))) v = lookup1 sch st v.
+Proof. exact savepoint_restores_secondary_l. Qed.
 
 (* per-statement inversion: undoing the write entries of one INSERT / one UPDATE of a non-key column *)
 Theorem undo_insert_inverts :
@@ -151,6 +170,18 @@ Check savepoint_restores :
     let s' := run sch (OSave n :: body ++ [ORollTo n]) (st, Some t) in
     obs_eq sch (fst s') st /\
     snd s' = Some (mkTxn (wlog t) (sps t ++ [(n, length (wlog t))])).
+Check rollback_restores_secondary :
+  forall sch st body fin,
+    int_pk sch = false -> inv sch st -> no_bare st ->
+    clean_run sch [] body (st, Some (mkTxn [] [])) = true ->
+    fin = ORollback \/ fin = ODrop ->
+    forall v, lookup1 sch (fst (run sch (OBegin :: body ++ [fin]) (st, None))) v = lookup1 sch st v.
+Check savepoint_restores_secondary :
+  forall sch st t n body,
+    int_pk sch = false -> inv sch st -> no_bare st -> zin n (names_of (sps t)) = false ->
+    clean_run sch (names_of (sps t) ++ [n]) body
+              (st, Some (mkTxn (wlog t) (sps t ++ [(n, length (wlog t))]))) = true ->
+    forall v, lookup1 sch (fst (run sch (OSave n :: body ++ [ORollTo n]) (st, Some t))) v = lookup1 sch st v.
 Check undo_insert_inverts :
   forall sch st rows r st2 es,
     inv sch st -> ins_all_or_none sch st rows = true ->
@@ -195,6 +226,8 @@ Print Assumptions rollback_restores.
 Print Assumptions rollback_restores_storage.
 Print Assumptions drop_restores.
 Print Assumptions savepoint_restores.
+Print Assumptions rollback_restores_secondary.
+Print Assumptions savepoint_restores_secondary.
 Print Assumptions undo_insert_inverts.
 Print Assumptions undo_update_inverts.
 Print Assumptions savepoint_stack_lifo.
